@@ -214,4 +214,15 @@ def g_index(repo):
     return g
 
 
-GROUPS = {'index': g_index, 'tracker': g_tracker, 'validate': g_validate, 'eval_blocks': g_eval_blocks, 'report': g_report, 'merge': g_merge, 'status': g_status, 'exit': g_exit, 'eval': g_eval, 'eval_disp': g_eval_disp}
+def g_index2(repo):
+    g = GroupBuild('index2', repo)
+    g.raw('prelude_common.rs')
+    import os
+    from vrun import VERUS_DIR
+    g.text(open(os.path.join(VERUS_DIR, 'prelude_idx.rs')).read().replace('pub type Result<R> = std::result::Result<R, Error>;', ''), 'prelude_idx.rs (without the Result alias: path_value.rs uses std Result)')
+    eval_types(g)
+    g.fn('U-idx2', RULES + 'path_value.rs', 'retrieve_index', impl=r'impl PathAwareValue', spec='pv_retrieve_index.spec', wrap_impl='impl PathAwareValue', props=['C08'])
+    return g
+
+
+GROUPS = {'index2': g_index2, 'index': g_index, 'tracker': g_tracker, 'validate': g_validate, 'eval_blocks': g_eval_blocks, 'report': g_report, 'merge': g_merge, 'status': g_status, 'exit': g_exit, 'eval': g_eval, 'eval_disp': g_eval_disp}
